@@ -1,4 +1,153 @@
-import MementoModel.Model.Store
+import MementoModel.Lemmas.StoreLemmas
+import MementoModel.Model.Crash
+import MementoModel.Lemmas.CrashInv
+import MementoModel.Lemmas.CrashLemmas
+
+/-!
+# C08 — a crash or I/O fault at any point of a write never poisons the filesystem store
+
+Over the primitive-level model `Model/Crash.lean`: `variant d ps n torn` is the store after the
+first `n` primitives of a `memoize`, optionally followed by a torn (half-written) execution of the
+next one. This covers: crash before any primitive, crash in the middle of any file write, and an
+I/O error raised at any primitive or in the middle of any file write (the exception aborts the rest
+of `memoize`; the runner swallows it). The statements quantify over **every** store satisfying the
+crash-closed invariant `CrashWF`, every request, every `n` and both values of `torn` — so they apply
+to any number of successive crashes.
+-/
+set_option linter.unusedVariables false
 namespace Memento.Store
-theorem placeholder_c08 : DS.empty.links = [] := rfl
+
+/-! The invariant `CrashWF`, `Sem`, `Sound` and `Request.correct` are defined in
+`Lemmas/CrashInv.lean` (so that the lemma files can use them); they are restated here.
+
+`CrashWF d` — the invariant that survives crashes (weaker than `DSWF`: orphan and torn version files
+may exist, a content link may dangle). -/
+
+theorem crashWF_iff (d : DS) : CrashWF d ↔
+    (∀ p ∈ d.objs, p.1.2 < d.next) ∧
+    (∀ p ∈ d.links, p.2 < d.next) ∧
+    -- a memento link always names a complete memento document whose content key (if any) names a
+    -- complete blob in the data area
+    (∀ fn arg v, alookup d.links (.memento fn arg) = some v →
+      ∃ m ck, alookup d.objs (.memento fn arg, v) = some (.mrec m ck) ∧
+        (ck = none ∨ ∃ k ver b, ck = some (k, ver) ∧ k.isMetaArea = false ∧ alookup d.objs (k, ver) = some (.blob b))) ∧
+    -- the version file a content link names, if it exists, is a complete blob holding the bytes of its key
+    (∀ h v c, alookup d.links (.content h) = some v → alookup d.objs (.content h, v) = some c → c = .blob h) :=
+  ⟨fun h => ⟨h.objFresh, h.linkFresh, h.mementoOk, h.contentOk⟩, fun ⟨a, b, c, e⟩ => ⟨a, b, c, e⟩⟩
+
+/-- what the functions compute: `Sem := Fn → Arg → Option Bytes`; every result the store would
+    serve is the right one -/
+theorem sound_iff (F : Sem) (d : DS) :
+    Sound F d ↔ ∀ fn arg v, callOutcome d fn arg = .served v → v = F fn arg := Iff.rfl
+
+/-- the request memoizes the right result -/
+theorem correct_iff (F : Sem) (r : Request) : r.correct F ↔ r.blobs.getLast? = F r.fn r.arg := Iff.rfl
+
+/-! **Change to the invariant as first stated.**  The last field of `CrashWF` used to read
+```
+  contentOk : ∀ h v, alookup d.links (.content h) = some v → alookup d.objs (.content h, v) = some (.blob h)
+```
+("a content link always names a complete blob").  With that field `crashwf_of_dswf` is *false*:
+`DSWF` does not forbid a content link whose version file is missing (it only says that content
+*objects* are linked, `DSWF.contentLinked`).  Counterexample below.  A dangling content link is
+harmless — `exists_nonversioned` tests the link *and* the file, so dedup never trusts it — and the
+field now only constrains the file when it exists.  Everything else is as first stated. -/
+
+private def danglingContent : DS := ⟨[], [(.content 5, 0)], 1⟩
+
+example : DSWF danglingContent ∧
+    ¬ (∀ h v, alookup danglingContent.links (.content h) = some v →
+        alookup danglingContent.objs (.content h, v) = some (.blob h)) := by
+  refine ⟨?_, ?_⟩
+  · refine ⟨?_, ?_, ?_, ?_, ?_, ?_, ?_, ?_, ?_, ?_⟩ <;>
+      simp [danglingContent, alookup_cons, alookup_nil]
+  · intro hall
+    have := hall 5 0 (by decide)
+    revert this
+    decide
+
+theorem crashwf_empty : CrashWF DS.empty := by
+  refine ⟨?_, ?_, ?_, ?_⟩ <;> simp [DS.empty, alookup_nil]
+
+/-- the fault-free store invariant implies the crash-closed one -/
+theorem crashwf_of_dswf (d : DS) (h : DSWF d) : CrashWF d := by
+  exact ⟨h.objFresh, h.linkFresh, h.mementoOk, fun hh v c _ ho => h.contentOk hh v c ho⟩
+
+/-- **closure**: every variant of a memoize on a crash-well-formed store is crash-well-formed -/
+theorem variant_crashwf (d : DS) (r : Request) (n : Nat) (torn : Bool) (h : CrashWF d) :
+    CrashWF (variant d (memoizePrims d r) n torn) := by
+  have hok : AllOk (fun _ _ => r.blobs.getLast?) d (memoizePrims d r) := memoizePrims_allOk h r rfl
+  exact (variant_inv _ d n torn h hok).1
+
+/-- (1a) "raises nothing": on a crash-well-formed store no call ever sees a torn document -/
+theorem crashwf_never_raises (d : DS) (h : CrashWF d) (fn : Fn) (arg : Arg) :
+    callOutcome d fn arg ≠ .raised := by
+  exact crashwf_never_raises' h fn arg
+
+/-- (1b) "still returns the correct value": soundness is preserved by every variant -/
+theorem variant_sound (F : Sem) (d : DS) (r : Request) (n : Nat) (torn : Bool)
+    (h : CrashWF d) (hs : Sound F d) (hr : r.correct F) :
+    Sound F (variant d (memoizePrims d r) n torn) := by
+  exact (variant_inv _ d n torn h (memoizePrims_allOk h r hr)).2 hs
+
+/-- frame: a variant of memoizing one call does not change what any *other* call sees -/
+theorem variant_frame (d : DS) (r : Request) (n : Nat) (torn : Bool) (h : CrashWF d)
+    (fn : Fn) (arg : Arg) (hne : (fn, arg) ≠ (r.fn, r.arg)) :
+    callOutcome (variant d (memoizePrims d r) n torn) fn arg = callOutcome d fn arg := by
+  have hok : AllOk (fun _ _ => r.blobs.getLast?) d (memoizePrims d r) := memoizePrims_allOk h r rfl
+  exact variant_frame_gen fn arg _ d n torn h hok (memoizePrims_linkKeys h r fn arg hne)
+
+/-- (2) recovery: once a later write completes, the call is served from the store — whatever
+    damage earlier crashes left behind -/
+theorem complete_write_recovers (d : DS) (r : Request) (h : CrashWF d) :
+    let ps := memoizePrims d r
+    callOutcome (variant d ps ps.length false) r.fn r.arg = .served r.blobs.getLast? := by
+  intro ps
+  rw [variant_length]
+  exact memoizePrims_complete h r
+
+/-- all of it, for any number of successive crashed / faulted memoize attempts -/
+def crashes (d : DS) : List (Request × Nat × Bool) → DS
+  | [] => d
+  | (r, n, torn) :: rest => crashes (variant d (memoizePrims d r) n torn) rest
+
+theorem crash_safe (F : Sem) (hist : List (Request × Nat × Bool))
+    (hr : ∀ x ∈ hist, x.1.correct F) (fn : Fn) (arg : Arg) :
+    let d := crashes DS.empty hist
+    callOutcome d fn arg ≠ .raised ∧ (∀ v, callOutcome d fn arg = .served v → v = F fn arg) := by
+  suffices H : ∀ (hist : List (Request × Nat × Bool)) (d : DS), CrashWF d → Sound F d →
+      (∀ x ∈ hist, x.1.correct F) → CrashWF (crashes d hist) ∧ Sound F (crashes d hist) by
+    intro d
+    obtain ⟨h1, h2⟩ := H hist DS.empty crashwf_empty (by intro fn arg v hv; cases hv) hr
+    exact ⟨crashwf_never_raises _ h1 fn arg, h2 fn arg⟩
+  intro hist
+  induction hist with
+  | nil => intro d h hs _; exact ⟨h, hs⟩
+  | cons x hist ih =>
+    intro d h hs hr
+    obtain ⟨r, n, torn⟩ := x
+    have hrc : r.correct F := hr _ List.mem_cons_self
+    exact ih _ (variant_crashwf d r n torn h) (variant_sound F d r n torn h hs hrc)
+      (fun y hy => hr y (List.mem_cons_of_mem _ hy))
+
+/-- tie to the atomic model of C05: the complete primitive sequence of a single-blob request is
+    `FsBackend.step … memoize` on the object store (no cache) -/
+theorem memoizePrims_complete_eq_step (s : FsBackend) (h : WF s) (hc : s.cache = none)
+    (fn arg ov mem : Nat) (val : Option Bytes) (sz : Nat) (wr : Bool) :
+    let r : Request := ⟨fn, arg, ov, mem, val.toList⟩
+    let d' := variant s.ds (memoizePrims s.ds r) (memoizePrims s.ds r).length false
+    d'.objs = (FsBackend.step s (.memoize fn arg ov mem val sz wr)).1.ds.objs ∧
+    d'.links = (FsBackend.step s (.memoize fn arg ov mem val sz wr)).1.ds.links := by
+  intro r d'
+  have hv : d' = (memoizePrims s.ds r).foldl Prim.apply s.ds := variant_length _ _
+  rw [hv, step_memoize s h.writable]
+  exact memoizePrims_foldl_eq s.ds fn arg ov mem val
+
+/-! non-vacuity: a crash in the middle of the data file, then in the middle of the memento file -/
+private def req : Request := ⟨1, 1, none, 10, [7]⟩
+private def F0 : Sem := fun _ _ => some 7
+example : callOutcome (crashes DS.empty [(req, 0, true), (req, 3, true)]) 1 1 = .computed := by decide
+example : callOutcome (crashes DS.empty [(req, 0, true), (req, 3, true), (req, 6, false)]) 1 1 = .served (some 7) := by decide
+example : (memoizePrims DS.empty req).length = 6 := by decide
+
 end Memento.Store
